@@ -279,7 +279,11 @@ SeqViol(cl, r) ==
     ELSE LET p == cl.per[r.rid]
              n == NameOf(cl, r.rid)
          IN (IF r.seq <= p.last
-             THEN {V("C03", "event seq " \o ToString(r.seq) \o " on " \o r.rid \o " delivered after seq " \o ToString(p.last) \o " (out of order or duplicate)", "")}
+             \* (on a connection tainted by a finding this is the other half of a gap reported under it: the skipped event
+             \* arrives late - e.g. KF-U: an unsent resource sent again releases its queue while an event that waits for a new
+             \* reference is still pending)
+             THEN {V("C03", "event seq " \o ToString(r.seq) \o " on " \o r.rid \o " delivered after seq " \o ToString(p.last) \o " (out of order or duplicate)",
+                     IF cl.taintU THEN "KF-U" ELSE IF cl.taintG THEN "KF-G" ELSE IF cl.taintW THEN "KF-W" ELSE "")}
              ELSE {})
             \cup
             (IF p.last > 0 /\ r.seq > p.last /\ Between(n, p.last, r.seq) # {}
